@@ -34,7 +34,7 @@ def _freeze(x):
 
 class _St:
     __slots__ = ("pc", "ph", "obs", "mown", "mdep", "mq", "sval", "sq", "sgr", "cq", "cgr", "bq", "bgr", "sendq", "recvq",
-                 "matched", "failed", "cvres", "nput")
+                 "matched", "failed", "cvres", "nput", "counters")
 
     def copy(self):
         n = _St()
@@ -57,13 +57,14 @@ class _St:
         n.failed = self.failed
         n.cvres = dict(self.cvres)      # actor -> result of its condition-variable wait (None / False / True)
         n.nput = list(self.nput)
+        n.counters = self.counters      # tuple of (counter, value), replaced not mutated
         return n
 
     def key(self):
         return (tuple(self.pc), tuple(self.ph), tuple(self.obs), tuple(self.mown), tuple(self.mdep), tuple(self.mq),
                 tuple(self.sval), tuple(self.sq), self.sgr, tuple(self.cq), self.cgr, tuple(self.bq), self.bgr,
                 tuple(self.sendq), tuple(self.recvq), tuple(sorted(self.matched.items(), key=repr)), self.failed,
-                tuple(sorted(self.cvres.items(), key=repr)), tuple(self.nput))
+                tuple(sorted(self.cvres.items(), key=repr)), tuple(self.nput), self.counters)
 
 
 class Explorer:
@@ -107,12 +108,32 @@ class Explorer:
         else:
             s.mown[m] = None
 
+    def _cv_mutex(self, op):
+        """the mutex of this wait: explicit (["cv_wait", c, m] / ["cv_wait_for", c, t, m]) or the one of the scenario"""
+        if op[0] == "cv_wait" and len(op) > 2:
+            return op[2]
+        if op[0] == "cv_wait_for" and len(op) > 3:
+            return op[3]
+        return self.cond_mutex[op[1]]
+
     def _push(self, s, a, val):
         s.obs[a] = s.obs[a] + (_freeze(val),)
 
     def _advance(self, s, a):
         s.pc[a] += 1
         s.ph[a] = 0
+        self._ticks(s, a)
+
+    def _ticks(self, s, a):
+        """a `tick` is plain code without simcall: it runs in the same atomic step as the completion of the previous operation"""
+        while s.pc[a] < len(self.progs[a]) and self.progs[a][s.pc[a]][0] == "tick":
+            k = self.progs[a][s.pc[a]][1]
+            cnt = dict(s.counters)
+            v = cnt.get(k, 0)
+            cnt[k] = v + 1
+            s.counters = tuple(sorted(cnt.items()))
+            self._push(s, a, v)
+            s.pc[a] += 1
 
     def _trys(self, s, a):
         res = []
@@ -211,7 +232,7 @@ class Explorer:
             return [n]
         if name in ("cv_wait", "cv_wait_for"):
             c = op[1]
-            m = self.cond_mutex[c]
+            m = self._cv_mutex(op)
             timed = name == "cv_wait_for" and op[2] > 0
             if ph == 0:
                 n = s.copy()
@@ -264,7 +285,7 @@ class Explorer:
                 else:
                     bop = self.progs[b][s.pc[b]]
                     n.cvres[b] = False if bop[0] == "cv_wait_for" else None
-                    self._mutex_request(n, b, self.cond_mutex[c])
+                    self._mutex_request(n, b, self._cv_mutex(bop))
                     n.ph[b] = 2
             self._push(n, a, None)
             self._advance(n, a)
@@ -369,6 +390,9 @@ class Explorer:
         s.failed = False
         s.cvres = {}
         s.nput = [0] * self.n
+        s.counters = ()
+        for a in range(self.n):     # leading ticks run when the actors start, in actor order
+            self._ticks(s, a)
         return s
 
     def terminal(self, s):
